@@ -60,8 +60,8 @@ def generate(ctx):
             c["f"] = fstlib.rand_fst(rng)
         elif k == "cfg_text":
             g = cfglib.rand_cfg(rng, profile=rng.choice(["plain", "eps", "unit", "recursive", "longshared"]), max_vars=3, max_prods=6, max_body=3)
-            ren_v = {"S": "S", "A": rng.choice(["A", "xa", "np"]), "B": rng.choice(["B", "b1", "vp"]), "C": "C"}
-            ren_t = {"a": rng.choice(["a", "John", "A"]), "b": rng.choice(["b", "Mary"]), "c": "c"}
+            ren_v = {"S": "S", "A": rng.choice(["A", "xa", "np", "1st", "_tmp"]), "B": rng.choice(["B", "b1", "vp", "#x", "2B"]), "C": "C"}
+            ren_t = {"a": rng.choice(["a", "John", "A", "_u"]), "b": rng.choice(["b", "Mary", "7"]), "c": "c"}
             c["g"] = cfglib.normalise(dict(g, vars=[ren_v[v] for v in g["vars"]], terms=[ren_t[t] for t in g["terms"]], start=ren_v[g["start"]],
                                            prods=[[ren_v[h], [[kk, (ren_v if kk == "V" else ren_t)[v]] for kk, v in b]] for h, b in g["prods"]]))
         else:
